@@ -443,6 +443,7 @@ pub fn run(prop: &str, tier: &str, only: Option<String>) -> i32 {
         Some(p) => profiles.push(("plain".into(), p.into())),
         None => run.caps_hit.push("plain-release profile binary not provided (VCHECK_PLAIN): only the overflow-checked build was swept".into()),
     }
+    let mut died: Vec<String> = Vec::new();
     for (name, bin) in &profiles {
         let out = format!("/verif/.child-{prop}-{name}.json");
         let _ = std::fs::remove_file(&out);
@@ -469,15 +470,26 @@ pub fn run(prop: &str, tier: &str, only: Option<String>) -> i32 {
                 return 1;
             }
             other => {
+                // the sweep process itself died (abort, stack overflow, OOM kill): for C05 that is
+                // a violation; either way the other profile is still swept
                 if prop == "C05" {
-                    println!("VIOLATION property=C05 replay=/verif/replays/C05-abort.json");
-                    println!("  fingerprint: C05 abort profile={name} status={other:?} ({status})");
-                    return 1;
+                    run.stats.violate(
+                        format!("C05 abort profile={name} status={other:?} ({status})"),
+                        String::new(),
+                        json!({"profile": name, "status": format!("{status}"), "note": "the sweep process died; re-run with VERIF_THREADS=1 to localise"}),
+                    );
+                } else {
+                    died.push(format!("sweep child for profile {name} died: {status}"));
                 }
-                eprintln!("MACHINERY: sweep child for profile {name} died: {status}");
-                return 2;
             }
         }
+    }
+    if !died.is_empty() && run.stats.violation_count == 0 {
+        eprintln!("MACHINERY: {}", died.join("; "));
+        return 2;
+    }
+    for d in &died {
+        run.caps_hit.push(d.clone());
     }
     let thorough = run.thorough();
     run.rule = format!(
